@@ -88,7 +88,8 @@ def gen(rng, tier):
             'unpack_bits': unpack, 'passthrough': passthrough,
             'fields': 'all' if passthrough else rng.choice(['DEFAULT_FIELDS', 'all', 'all']),
             'explicit_cleandir': rng.random() < 0.25, 'zdir_as_path': rng.random() < 0.5,
-            'sub_order': rng.randrange(1 << 20) if rng.random() < 0.5 else None}
+            'sub_order': rng.randrange(1 << 20) if rng.random() < 0.5 else None,
+            'drop_slab': rng.randrange(8) if (rng.random() < 0.15 and not bigspec) else None}
 
 
 def run(case):
@@ -103,12 +104,22 @@ def run(case):
     with C.scratch() as root:
         gd, written = W.write_world(world, root, knobs)
         C.prelude(world, knobs, root, out['faults'])
+        C.failed_loads_before(gd, knobs, out['faults'])
         before = C.tree_digest(root)
         arg, order = C.path_argument(world, gd, case['path'])
         lc = bool(world.get('lc'))
-        rows = W.expected_particles(world, order, case['cleaned'] and not lc, case['AB'])
+        keep = None
         kw = dict(cleaned=case['cleaned'], subsamples=C.subsamples_argument(case), unpack_bits=case['unpack_bits'],
                   passthrough=case['passthrough'], fields=case['fields'])
+        if case.get('drop_slab') is not None and not lc and len(order) >= 2:
+            # a filter that keeps nothing from one whole superslab (a spatial cut): every other row still indexes
+            # its own particles
+            drop = order[case['drop_slab'] % len(order)]
+            keep = {s['index']: [s['index'] != drop] * len(s['halos']) for s in W._slabs(world, order)}
+            bad_ids = np.array([h['raw']['id'] for s in W._slabs(world, [drop]) for h in s['halos']], dtype=np.uint64)
+            kw['filter_func'] = lambda h: ~np.isin(np.asarray(h['id']).astype(np.uint64), bad_ids)
+            bump(out['probes'], 'filter-empties-one-superslab')
+        rows = W.expected_particles(world, order, case['cleaned'] and not lc, case['AB'], keep=keep)
         if case.get('explicit_cleandir') and case['cleaned'] and not lc:
             import os
             chi = W.clean_dirs(world, root)[1]
@@ -126,7 +137,7 @@ def run(case):
             k2 = dict(knobs, poison=poison)
             try:
                 with C.environment(k2, out['faults'] if poison == 'A' else None):
-                    cat = C.load(arg, **copy.deepcopy(kw))
+                    cat = C.load(arg, **{k_: (v_ if k_ == 'filter_func' else copy.deepcopy(v_)) for k_, v_ in kw.items()})
             except Exception as e:
                 violation(out, 'raises:' + type(e).__name__, 'CompaSOHaloCatalog', repr(e)[:400])
                 return out
